@@ -1,6 +1,6 @@
 (* C09 - a server-initiated channel close affects that channel only.
    This file only pins statements. *)
-From Amq Require Import Lib.Base Gen.Consts Model.Wire Model.Frames Model.OutBuf Model.Collector Model.Slots Model.Core Spec.Slots Spec.Content Proofs.Slots Proofs.OutBuf Proofs.Collector Proofs.CoreContent Proofs.CoreInv Proofs.CoreMore Check.Core Proofs.Examples Model.Sys Proofs.Sys Proofs.SysLive Lib.RsVal Gen.SrcHandle Proofs.HandleSrc Model.Handle.
+From Amq Require Import Lib.Base Gen.Consts Model.Wire Model.Frames Model.OutBuf Model.Collector Model.Slots Model.Core Spec.Slots Spec.Content Proofs.Slots Proofs.OutBuf Proofs.Collector Proofs.CoreContent Proofs.CoreInv Proofs.CoreMore Check.Core Proofs.Examples Model.Sys Proofs.Sys Proofs.SysLive Lib.RsVal Gen.SrcHandle Proofs.HandleSrc Model.Handle Proofs.SysRefine.
 
 (* a successful Channel.Close(n): slot n and its id are gone, exactly Channel.CloseOk(n) is queued, phase and channel-0 state are untouched and every other slot is as before *)
 Theorem C09_effect : forall (n code : N) (text dbg : str) (c c' : core), steady c -> n <> 0 -> process c (FMethod n (MChanClose code text), dbg) = (OOk, c') -> alookup n (c_slots c') = None /\ c_ids c' = snd (Slots.remove n (c_ids c)) /\ c_out c' = ob_append (c_out c) (ser_chan_close_ok n) /\ c_phase c' = c_phase c /\ c_ch0 c' = c_ch0 c /\ (forall k : N, k <> n -> alookup k (c_slots c') = alookup k (c_slots c)).
@@ -37,6 +37,10 @@ Proof. exact sys_never_stuck. Qed.
 (* ... and the translated source of a call (Gen/SrcHandle.v: send, and on a failed send check_recv_for_error with its BLOCKING recv) is the model hstep: the next call on a channel the server closed reports the verdict queued for it (seed C09h replaced that recv by try_recv: the proof breaks, and c04sys finds the window in which the verdict is not queued yet) *)
 Theorem C09_call_source_is_model : forall (c : hcall) (s : hstate) (r : hres) (s' : hstate) (arg : val), hstep c s = Some (r, s') -> gen_call c (enc_state s) arg = (enc_state s', enc_res c r).
 Proof. exact call_source_is_model. Qed.
+
+(* THE SYSTEM'S STEP IS THE CORE'S: the I/O thread processing the server's Channel.Close for channel n (Model/Core.v's process, which the CoreProbe ties to the real code) puts the verdict BEHIND whatever the reply queue of n holds - at most one reply by C09_system_isolation, so the capacity 2 from the compiled crate has room -, drops the slot with its mailbox, leaves every other slot as it was and queues Channel.CloseOk(n): the step ARead of Model/Sys.v takes on the Close *)
+Theorem C09_io_close_is_ARead_close : forall (n code : N) (text dbg : str) (c : core) (s : slot), steady c -> n <> 0 -> alookup n (c_slots c) = Some s -> s_consumers s = [] -> reply_queue_ok c n -> (Datatypes.length (view_replyq c n) <= 1)%nat -> exists c' : core, process c (FMethod n (MChanClose code text), dbg) = (OOk, c') /\ alookup n (c_slots c') = None /\ items_of (s_reply s) (c_qs c') = Some (view_replyq c n ++ [IReplyErr (EServerClosedChannel n code text)])%list /\ (forall k : N, k <> n -> alookup k (c_slots c') = alookup k (c_slots c)) /\ c_out c' = ob_append (c_out c) (ser_chan_close_ok n).
+Proof. exact io_close_is_ARead_close. Qed.
 
 (* non-vacuity of C09_chan_close_effect: the server closes channel 1 of two: its slot is gone,
    Channel.CloseOk(1) is queued, its consumer and its caller are told, channel 2 is untouched *)
@@ -87,6 +91,7 @@ Check C09_system_isolation : forall (answer : N -> N -> N) (bound qcap : N) (pro
 Check C09_system_closed_caller_released : forall (answer : N -> N -> N) (bound qcap : N) (progs : N -> list call), 2 <= qcap -> forall (sched : list act) (n : N), let s := yrun answer bound qcap (init_sys progs) sched in y_dead s = true \/ yc_slot_gone (y_ch s n) = true -> yc_wait (y_ch (ystep answer bound qcap s (ARecv n)) n) = false /\ yc_wait (y_ch (ystep answer bound qcap s (ASend n)) n) = yc_wait (y_ch s n) /\ (yc_wait (y_ch s n) = false -> yc_failed (y_ch s n) = false -> yc_prog (y_ch s n) <> [] -> yc_failed (y_ch (ystep answer bound qcap s (ASend n)) n) = true /\ yc_mail (y_ch (ystep answer bound qcap s (ASend n)) n) = yc_mail (y_ch s n)).
 Check C09_system_never_stuck : forall (answer : N -> N -> N) (bound qcap : N) (progs : N -> list call), 2 <= qcap -> forall (sched : list act) (n : N), let s := yrun answer bound qcap (init_sys progs) sched in y_dead s = false -> yc_wait (y_ch s n) = true -> exists cont : list act, ~ In ADie cont /\ yc_wait (y_ch (yrun answer bound qcap s cont) n) = false.
 Check C09_call_source_is_model : forall (c : hcall) (s : hstate) (r : hres) (s' : hstate) (arg : val), hstep c s = Some (r, s') -> gen_call c (enc_state s) arg = (enc_state s', enc_res c r).
+Check C09_io_close_is_ARead_close : forall (n code : N) (text dbg : str) (c : core) (s : slot), steady c -> n <> 0 -> alookup n (c_slots c) = Some s -> s_consumers s = [] -> reply_queue_ok c n -> (Datatypes.length (view_replyq c n) <= 1)%nat -> exists c' : core, process c (FMethod n (MChanClose code text), dbg) = (OOk, c') /\ alookup n (c_slots c') = None /\ items_of (s_reply s) (c_qs c') = Some (view_replyq c n ++ [IReplyErr (EServerClosedChannel n code text)])%list /\ (forall k : N, k <> n -> alookup k (c_slots c') = alookup k (c_slots c)) /\ c_out c' = ob_append (c_out c) (ser_chan_close_ok n).
 
 Print Assumptions C09_effect.
 Print Assumptions C09_isolation.
@@ -97,6 +102,7 @@ Print Assumptions C09_system_isolation.
 Print Assumptions C09_system_closed_caller_released.
 Print Assumptions C09_system_never_stuck.
 Print Assumptions C09_call_source_is_model.
+Print Assumptions C09_io_close_is_ARead_close.
 Print Assumptions C09_example.
 Print Assumptions C09_system_example.
 Print Assumptions C09_system_example_capacity_one_refuted.
